@@ -400,7 +400,7 @@ Proof.
   - destruct (ray3d_core_char z x y zgrad xgrad ygrad zend xend yend zsrc xsrc ysrc stepsize max_step hg Hh)
       as (cond & body & s0 & Heq & (_ & _ & _ & _ & Hi0 & Hcell0) & Hstep).
     rewrite Heq. destruct (while_fuel fuel cond body s0) as [s1| |] eqn:Ew; simpl; try discriminate.
-    + destruct (fin3_ok zsrc xsrc max_step (nfree_max3 z x y stepsize) s1) as [rc ->]. discriminate.
+    + destruct (fin3_ok zsrc xsrc ysrc max_step (nfree_max3 z x y stepsize) s1) as [rc ->]. discriminate.
     + exfalso. eapply loop3_no_raise; eauto.
   - rewrite ray3d_core_outside by exact Hh. discriminate.
 Qed.
@@ -457,7 +457,7 @@ Proof.
   - destruct (ray3d_core_char z x y zgrad xgrad ygrad zend xend yend zsrc xsrc ysrc stepsize max_step hg Hh)
       as (cond & body & s0 & Heq & (Hc0 & _ & _ & _ & Hi0 & Hcell0) & Hstep).
     rewrite Heq. destruct (while_fuel fuel cond body s0) as [s1| |] eqn:Ew; simpl; try discriminate.
-    + destruct (fin3_ok zsrc xsrc max_step (nfree_max3 z x y stepsize) s1) as [rc ->]. discriminate.
+    + destruct (fin3_ok zsrc xsrc ysrc max_step (nfree_max3 z x y stepsize) s1) as [rc ->]. discriminate.
     + exfalso. revert Ew. eapply loop3_terminates_free; eauto. unfold budm3. rewrite Hc0. lia.
   - rewrite ray3d_core_outside by exact Hh. discriminate.
 Qed.
@@ -471,7 +471,7 @@ Proof.
   - destruct (ray3d_core_char z x y zgrad xgrad ygrad zend xend yend zsrc xsrc ysrc stepsize max_step hg Hh)
       as (cond & body & s0 & Heq & (Hc0 & Hn0 & _ & _ & Hi0 & Hcell0) & Hstep).
     rewrite Heq. destruct (while_fuel fuel cond body s0) as [s1| |] eqn:Ew; simpl; try discriminate.
-    + destruct (fin3_ok zsrc xsrc max_step (nfree_max3 z x y stepsize) s1) as [rc ->]. discriminate.
+    + destruct (fin3_ok zsrc xsrc ysrc max_step (nfree_max3 z x y stepsize) s1) as [rc ->]. discriminate.
     + exfalso. revert Ew. eapply loop3_terminates; eauto. unfold lexm3. rewrite Hc0, Hn0.
       set (N := nfree_max3 z x y stepsize) in *.
       assert (Z.to_nat (max_step - 1) <= Z.to_nat max_step)%nat by lia.
@@ -675,3 +675,164 @@ Qed.
 End Thm7.
 End Core3.
 
+
+(* ------------------------------------------------------------------------------------------ *)
+(* 6. every vertex of a returned ray lies in the hull of the axes (real arithmetic)              *)
+(*    (in_ax, axis_ok, clamp_in, cell_in come from Ray2dProofs)                                  *)
+(* ------------------------------------------------------------------------------------------ *)
+Section InHullR3.
+Local Open Scope R_scope.
+Variables (z x y zgrad xgrad ygrad : arr R) (zend xend yend zsrc xsrc ysrc stepsize : R)
+          (max_step : Z) (hg : bool).
+
+Lemma hull3_R : hull3 z x y zend xend yend = true -> in_ax z zend /\ in_ax x xend /\ in_ax y yend.
+Proof.
+  unfold hull3, in_ax. cbn [nleb nofZ NumR]. intros Hh.
+  apply andb_prop in Hh. destruct Hh as [H12 H3].
+  apply andb_prop in H12. destruct H12 as [H1 H2].
+  apply andb_prop in H1. apply andb_prop in H2. apply andb_prop in H3.
+  destruct H1 as [A B]. destruct H2 as [C D]. destruct H3 as [E F].
+  apply Rleb_true in A, B, C, D, E, F. repeat split; assumption.
+Qed.
+
+Definition pt_in (p : arr R) : Prop :=
+  in_ax z (get 0 p [0%Z]) /\ in_ax x (get 0 p [1%Z]) /\ in_ax y (get 0 p [2%Z]).
+Definition row_in3 (ray : arr R) (k : Z) : Prop :=
+  in_ax z (get 0 ray [k; 0%Z]) /\ in_ax x (get 0 ray [k; 1%Z]) /\ in_ax y (get 0 ray [k; 2%Z]).
+
+(* loop invariant *)
+Definition hullinv3 (s : St2) : Prop :=
+  ray3_ok zend xend yend max_step s /\
+  (forall k : Z, (1 <= k < s_count s)%Z -> row_in3 (s_ray s) k) /\
+  (hg = true -> pt_in (s_lower s) /\ pt_in (s_upper s)).
+
+Lemma clamped3_in (p : arr R) :
+  in_ax z zend -> in_ax x xend -> in_ax y yend -> clamped3 z x y p -> pt_in p.
+Proof.
+  intros Hz Hx Hy ([a Ea] & [b Eb] & [c Ec]). cbn [nofZ NumR] in Ea, Eb, Ec.
+  unfold pt_in. rewrite Ea, Eb, Ec.
+  repeat split; apply clamp_in; unfold in_ax in *; lra.
+Qed.
+
+Lemma rows_after_store3 (s : St2) (p : arr R) :
+  ray3_ok zend xend yend max_step s -> (s_count s < max_step)%Z -> vec3 p ->
+  (forall k : Z, (1 <= k < s_count s)%Z -> row_in3 (s_ray s) k) ->
+  forall k : Z, (1 <= k < s_count s)%Z -> row_in3 (set_sub (s_ray s) [s_count s] p) k.
+Proof.
+  intros (Hc & Hsh & Hwf & _) Hlt [Hp1 Hp2] Hrows k Hk. unfold row_in3.
+  rewrite !(get_set_sub_other 0 (s_ray s) p max_step 3 (s_count s) k) by (auto; lia).
+  apply Hrows. exact Hk.
+Qed.
+
+Lemma row_stored3 (s : St2) (p : arr R) :
+  ray3_ok zend xend yend max_step s -> (s_count s < max_step)%Z -> vec3 p -> pt_in p ->
+  row_in3 (set_sub (s_ray s) [s_count s] p) (s_count s).
+Proof.
+  intros (Hc & Hsh & Hwf & _) Hlt [Hp1 Hp2] Hin. unfold row_in3.
+  rewrite !(get_set_sub_same 0 (s_ray s) p max_step 3 (s_count s)) by (auto; lia).
+  exact Hin.
+Qed.
+
+Lemma hullinv3_progress nf s s' :
+  (hg = true -> axis_ok z /\ axis_ok x /\ axis_ok y) -> in_ax z zend -> in_ax x xend -> in_ax y yend ->
+  hullinv3 s -> progress3 hg max_step nf z x y s s' -> hullinv3 s'.
+Proof.
+  intros Hax Hz Hx Hy (Hok & Hrows & Hlu) Hpr.
+  pose proof (ray3_ok_progress z x y zend xend yend max_step hg nf s s' Hok Hpr) as Hok'.
+  destruct Hpr as (Hlt & _ & (Hv & _) & Hcase).
+  destruct Hcase as [(A & B & C & D & E)|[(A & B & C & D & (p & (M0 & M1 & M2) & Hp & Hcl) & Hcells)|(A & B & C & D & E & F)]].
+  - (* free mode: a clamped point *)
+    split; [exact Hok'|]. split; [|intros Eh; congruence].
+    intros k Hk. rewrite B in Hk. rewrite D.
+    destruct (Z.eq_dec k (s_count s)) as [->|Hne].
+    + apply row_stored3; auto. apply clamped3_in; auto.
+    + apply rows_after_store3; auto. lia.
+  - (* grid mode: a clamped point, possibly snapped to a cell boundary *)
+    destruct (Hlu A) as ((L0 & L1 & L2) & (U0 & U1 & U2)). destruct (Hax A) as (Haz & Hax' & Hay).
+    destruct (clamped3_in p Hz Hx Hy Hcl) as (P0 & P1 & P2).
+    assert (Q : pt_in (s_pcur s')).
+    { unfold magnet_of in M0, M1, M2. cbn [nofZ NumR] in M0, M1, M2. unfold pt_in. split; [|split].
+      - destruct M0 as [E|[E|E]]; rewrite E; assumption.
+      - destruct M1 as [E|[E|E]]; rewrite E; assumption.
+      - destruct M2 as [E|[E|E]]; rewrite E; assumption. }
+    split; [exact Hok'|]. split.
+    + intros k Hk. rewrite B in Hk. rewrite D.
+      destruct (Z.eq_dec k (s_count s)) as [->|Hne].
+      * apply row_stored3; auto.
+      * apply rows_after_store3; auto. lia.
+    + intros _. destruct Hcells as (Cz & Cx & Cy). cbn [nofZ NumR] in Cz, Cx, Cy.
+      destruct Q as (Q0 & Q1 & Q2).
+      destruct (cell_in z _ _ _ Haz (proj1 Q0) Cz) as [? ?].
+      destruct (cell_in x _ _ _ Hax' (proj1 Q1) Cx) as [? ?].
+      destruct (cell_in y _ _ _ Hay (proj1 Q2) Cy) as [? ?]. unfold pt_in. tauto.
+  - (* grid mode: a free step *)
+    split; [exact Hok'|]. rewrite B, D, E, F. split; assumption.
+Qed.
+
+Theorem ray3d_vertices_in_hull fuel ray count :
+  (hg = true -> axis_ok z /\ axis_ok x /\ axis_ok y) ->
+  u_ray3d_core_v fuel z x y zgrad xgrad ygrad zend xend yend zsrc xsrc ysrc stepsize max_step hg
+    = Ok (ray, count) ->
+  forall k : Z, (0 <= k < count)%Z -> row_in3 ray k.
+Proof.
+  intros Hax Hc k Hk.
+  destruct (ray3d_core_count_range z x y zgrad xgrad ygrad zend xend yend zsrc xsrc ysrc stepsize max_step hg
+              fuel ray count Hc) as [Hr Hsh].
+  assert (Hpos : (1 <= count)%Z) by lia.
+  destruct (ray3d_core_endpoints z x y zgrad xgrad ygrad zend xend yend zsrc xsrc ysrc stepsize max_step hg
+              fuel ray count Hc Hpos) as (_ & _ & Hlt & (E0 & E1 & E2) & _).
+  destruct (hull3 z x y zend xend yend) eqn:Hh.
+  2:{ rewrite ray3d_core_outside in Hc by exact Hh. injection Hc as _ <-. lia. }
+  destruct (hull3_R Hh) as (Hz & Hx & Hy).
+  destruct (Z.eq_dec k 0) as [->|Hk0].
+  { unfold row_in3. cbn [nofZ NumR] in E0, E1, E2. rewrite E0, E1, E2. repeat split; assumption. }
+  destruct (ray3d_core_char z x y zgrad xgrad ygrad zend xend yend zsrc xsrc ysrc stepsize max_step hg Hh)
+    as (cond & body & s0 & Heq & (Hc0 & _ & _ & Hr0 & Hi0 & Hcell0) & Hstep).
+  rewrite Heq in Hc. destruct (while_fuel fuel cond body s0) as [s1| |] eqn:Ew; simpl in Hc; try discriminate.
+  destruct (loop3_inv _ _ _ _ _ _ cond body Hstep hullinv3) with (4 := Ew) as (_ & Hinv); auto.
+  - intros s s' Hinv _ Hpr. eapply hullinv3_progress; eauto.
+  - (* initially *)
+    split; [apply ray3_ok_init; auto; lia|]. split; [intros j Hj; lia|].
+    intros Ehg. destruct (Hax Ehg) as (Haz & Hax' & Hay). destruct (Hcell0 Ehg) as (Cz & Cx & Cy).
+    cbn [nofZ NumR] in Cz, Cx, Cy.
+    destruct (cell_in z _ _ _ Haz (proj1 Hz) Cz) as [? ?].
+    destruct (cell_in x _ _ _ Hax' (proj1 Hx) Cx) as [? ?].
+    destruct (cell_in y _ _ _ Hay (proj1 Hy) Cy) as [? ?]. unfold pt_in. tauto.
+  - destruct Hinv as (Hok & Hrows & _).
+    unfold fin3 in Hc. destruct ((max_step <=? s_count s1)%Z || _) eqn:Eb; injection Hc as <- <-; [lia|].
+    apply orb_false_elim in Eb. destruct Eb as [Eb _]. apply Z.leb_gt in Eb.
+    apply rows_after_store3; auto; [apply vec3_of_list|lia].
+Qed.
+End InHullR3.
+
+(* ------------------------------------------------------------------------------------------ *)
+(* 1c. binary64: a NaN end point is rejected with ValueError (for every fuel)                    *)
+(* ------------------------------------------------------------------------------------------ *)
+From FT.proofs Require NumFLaws.
+
+Theorem ray3d_nan_end_point_raises
+  (z x y zgrad xgrad ygrad : arr PrimFloat.float) (zend xend yend zsrc xsrc ysrc stepsize : PrimFloat.float)
+  (max_step : Z) (hg : bool) (fuel : nat) :
+  PrimFloat.is_nan zend = true \/ PrimFloat.is_nan xend = true \/ PrimFloat.is_nan yend = true ->
+  u_ray3d_v fuel z x y zgrad xgrad ygrad zend xend yend zsrc xsrc ysrc stepsize max_step hg = Raise ValueError.
+Proof.
+  intros Hnan. apply ray3d_outside_raises. unfold hull3. cbn [nleb NumF].
+  destruct Hnan as [Hn|[Hn|Hn]].
+  - rewrite (NumFLaws.leb_nan_r zend _ Hn). reflexivity.
+  - rewrite (NumFLaws.leb_nan_r xend _ Hn). cbn [andb]. rewrite Bool.andb_false_r. reflexivity.
+  - rewrite (NumFLaws.leb_nan_r yend _ Hn). cbn [andb]. apply Bool.andb_false_r.
+Qed.
+
+Print Assumptions ray3d_core_outside.
+Print Assumptions ray3d_raises_value_error_iff.
+Print Assumptions ray3d_nan_end_point_raises.
+Print Assumptions ray3d_free_terminates.
+Print Assumptions ray3d_terminates.
+Print Assumptions ray3d_honor_terminates.
+Print Assumptions ray3d_core_count_range.
+Print Assumptions ray3d_core_endpoints.
+Print Assumptions ray3d_1_endpoints.
+Print Assumptions ray3d_vertices_in_hull.
+Print Assumptions ray3d_vectorized_spec.
+Print Assumptions ray3d_vectorized_as_singles.
+Print Assumptions ray3d_list_raises_like_first_failing_single.
